@@ -2,6 +2,7 @@ package check
 
 import (
 	"verif/harness/internal/gen"
+	"verif/harness/internal/prog"
 )
 
 // C06: event-based gateway: exactly one alternative wins, the instance completes.
@@ -20,7 +21,11 @@ func C06(c *Ctx) int {
 	}
 	// concurrent delivery of 2..3 events from different goroutines (the driver
 	// then answers whatever task is requested)
-	if err := c.TokenGameRound(fs, ps, RoundOpts{Label: "concurrent", MaxSteps: 3, MaxPerProg: capN,
+	reps := 10
+	if !c.Quick() {
+		reps = 60
+	}
+	if err := c.TokenGameRound(fs, ps, RoundOpts{Label: "concurrent", MaxSteps: 3, MaxPerProg: capN, Reps: reps,
 		Features: []string{"deliverc"}, MaxDeliver: 1,
 		Job: JobOpts{Perturb: 9, Auto: true, HoldPoints: []string{"evgw.determined", "evgw.withdraw", "catch.event", "catch.consume", "flow.action"}}}); err != nil {
 		c.Infraf("%v", err)
@@ -34,6 +39,21 @@ func C06(c *Ctx) int {
 		Features: []string{"deliver"}, MaxDeliver: 9}); err != nil {
 		c.Infraf("%v", err)
 	}
-	c.Extra["programs"] = len(ps)
+	// the winner is determined while the other alternatives are still on their way to their
+	// catch events: events delivered as soon as the addressed catch event listens, the
+	// alternatives' new flows held at their start
+	if err := c.TokenGameRound(fs, ps, RoundOpts{Label: "early-winner", MaxSteps: 5, MaxPerProg: capN / 2,
+		Features: []string{"deliver"}, MaxDeliver: 2,
+		Job: JobOpts{Perturb: 2, EagerDeliver: true, LingerMs: -1, HoldPoints: []string{"flow.start"}}}); err != nil {
+		c.Infraf("%v", err)
+	}
+	// the gateway activated again within one instance (loop back from the winning branch)
+	loop := []*prog.Program{gen.EventGatewayLoop()}
+	if err := c.TokenGameRound(fs, loop, RoundOpts{Label: "reentry", MaxSteps: 14, Simulate: sim / 2, MaxPerProg: 80,
+		Features: []string{"deliver"}, MaxDeliver: 5,
+		Job: JobOpts{Perturb: 9, HoldPoints: []string{"evgw.determined", "evgw.withdraw", "catch.event", "catch.consume", "flow.action"}}}); err != nil {
+		c.Infraf("%v", err)
+	}
+	c.Extra["programs"] = len(ps) + 1
 	return c.Finish("model_checking", "event-based gateways with 2..3 alternatives; TLC enumerates every sequence of competing / non-matching events up to length 3 (sequential delivery) and every set of 2..3 events delivered concurrently from different goroutines; replayed with schedule perturbation around determination and withdrawal; TokenGameTrace: exactly one alternative continues once, losers never, later losing events have no effect, the instance completes, every delivery returns", false, fs)
 }
